@@ -54,7 +54,8 @@ def verify(outdir, k, sid):
             dst = os.path.join(wt, pkgdir, f"zz_seed_demo{k}_test.go")
             shutil.copy(demo, dst)
             names = re.findall(r"^func (Test\w+)\(", open(demo).read(), re.M)
-            demo_cmd = f"go test -vet=off -count=1 -run '^({'|'.join(names)})$' ./{pkgdir}/"
+            race = "-race " if (os.path.exists(txt) and "-race" in open(txt).read()) else ""
+            demo_cmd = f"go test {race}-vet=off -count=1 -run '^({'|'.join(names)})$' ./{pkgdir}/"
             with_change = sh(demo_cmd, cwd=wt)
             # never `git stash`: the stash is shared by all worktrees. The demo file is untracked and stays.
             sh("git diff --binary > /tmp/sv/undo.diff && git checkout -- .", cwd=wt)
